@@ -167,6 +167,20 @@ def body(ctx, case):
             want2, _ = lm.seq_score(start2, to_tuple(h.transcript), bonus, False)
             ctx.check(abs(float(h.lm_sc) - want2) <= 1e-9 * (1 + abs(want2)), "lm_score_not_lm_own_score",
                       lambda: "later line from start state %r: transcript %r lm_sc=%r, LM gives %r; " % (start2, h.transcript, float(h.lm_sc), want2) + desc())
+    if lm_type == "hash":
+        # the LM of a live decoder is exchanged (configurations attach the LM after the decoder was built): from then on every
+        # score is the new LM's own score
+        old_lm = dec._lm
+        dec._lm = HashLM(lm_seed + 1, C - 1)
+        try:
+            with np.errstate(all="ignore"):
+                swapped = ctx.must("decoder_raises", dec, M.copy())
+            for h in swapped:
+                want3, _ = dec._lm.seq_score((), to_tuple(h.transcript), bonus, False)
+                ctx.check(abs(float(h.lm_sc) - want3) <= 1e-9 * (1 + abs(want3)), "lm_score_not_lm_own_score",
+                          lambda: "after the LM was exchanged: transcript %r lm_sc=%r, the new LM gives %r; " % (h.transcript, float(h.lm_sc), want3) + desc())
+        finally:
+            dec._lm = old_lm
     if not eos:
         with np.errstate(all="ignore"):
             plain_call = ctx.must("decoder_raises", dec, M.copy(), init_h=copy.deepcopy(init_h))
